@@ -88,7 +88,8 @@ CHECKS = {
             "STOP_SENDING with exactly c; finish() stays pending while acknowledgements are withheld - also when the pending finish() is "
             "cancelled and issued again, three times - completes Ok after release, and the reader then gets all bytes and end-of-stream; "
             "a finish() cancelled while nothing reaches the reader, followed by the reader's stop(c), is reported as Stopped(c) by the "
-            "re-issued finish() and by stopped().",
+            "re-issued finish() and by stopped(); a finish() that is pending when the writer's own endpoint closes the connection reports "
+            "NotConnected, never success.",
             SIM_NOTE, "exhaustive enumeration of a bounded scenario grid executed on the real stack under a deterministic simulated environment"),
     "C07": ("simx", "fault_enumeration", "DESIGN.md §6-C07",
             "Fault = k (1..6) peer-opened streams of kind uni/bidi stalled at one of 7 positions (no byte at all; first byte of "
@@ -205,7 +206,7 @@ CHECKS = {
             "bounded-exhaustive input enumeration on the implementation vs. reference codec"),
     "C15": ("protox", "exploration", "DESIGN.md §6-C15",
             "For every corpus element sequence (valid frames/stream headers of every varint-length class, non-minimal encodings, long payloads, "
-            "unknown types, invalid session ids, oversize lengths; singles and ordered pairs) and each of 7 reader subjects (Frame, StreamHeader, "
+            "unknown types, invalid session ids, oversize lengths for known and unknown types; singles and ordered pairs) and each of 7 reader subjects (Frame, StreamHeader, "
             "the four frame-reading typestates, the uni-stream upgrade): the one-shot, buffered and async paths are executed on the whole input, "
             "on every proper prefix, with reset / not-connected injected at every read index, under every chunking of the source (all compositions "
             "up to 12 (thorough 14) bytes, header-region compositions beyond) combined with every Pending pattern of at most 3 (4) Pendings, with a "
@@ -244,7 +245,7 @@ CHECKS = {
             "Complete grid of direct calls of the public ServerHashVerification::verify_server_cert with an injected clock: key algorithm "
             "(P-256, P-384, Ed25519; rcgen) x validity (1 s, 13 d, 14 d - 1 s, 14 d, 14 d + 1 s, 15 d, 365 d) x now (not_before -1/0/+1 s, "
             "middle, not_after -1/0/+1 s, +-60 s second by second, and validity 14 d +-60 s; thorough +-900 s, 14 d +-3600 s, 18 validities) x hash set (empty, own, other, 31 others "
-            "+ own, 32 others, the hash of another valid certificate that is sent behind the unpinned leaf, own with a longer chain); truncated / bit-flipped DER (thorough: every single bit and every truncation); and end to end on the simulated network 6 trust policies (hashes own / other / "
+            "+ own, 32 others, the hash of another valid certificate that is sent behind the unpinned leaf, own with a longer chain, own added through add() after greater digests, everything through add() in no particular order); truncated / bit-flipped DER (thorough: every single bit and every truncation); and end to end on the simulated network 6 trust policies (hashes own / other / "
             "empty, native roots, custom root store with the issuing CA, no validation) x 6 server identities (P-256 14 d, expired, not yet "
             "valid, 15 d, P-384, CA-signed leaf). Expected decision is computed from the generation parameters; a refused server must never "
             "yield a session request at the server application.",
@@ -255,7 +256,7 @@ CHECKS = {
             "Complete grids: 11 SAN lists x 11 validity settings (Identity::self_signed, validity_days 0/1/13/14/15 from now, explicit window, "
             "offset_from_not_before, validity_days counted from a not_before 3 days ago / 1 hour ago / tomorrow) with every generated certificate re-parsed by x509-parser (v3, id-ecPublicKey "
             "+ prime256v1, exactly the requested SANs typed DNS / IP, validity as requested, default <= 14 d, valid now, accepted by hash "
-            "pinning with its own hash, usable in a TLS server config; non-ASCII names refused); PEM store->load for certificate, private "
+            "pinning with its own hash - also when added through add() to a verifier that already holds other digests -, usable in a TLS server config; non-ASCII names refused); PEM store->load for certificate, private "
             "key, identity and chains of length 0,1,2,3,5 (byte-identical DER, labels), each also stored over an older, longer file at the "
             "same path (nothing of the old file may survive); digests with every uniform byte value and every "
             "position x 11 boundary values through both textual formats, FromStr and Display; every truncation and single-character "
